@@ -127,6 +127,15 @@ impl VfStr {
     pub fn to_string(&self) -> (r: String) { unimplemented!() }
 }
 
+pub open spec fn ver_num(v: Version) -> int {
+    match v { Version::V0 => 0, Version::V1 => 1, Version::V2 => 2, Version::V3 => 3, Version::V4 => 4, Version::V5 => 5 }
+}
+/// derived PartialOrd of the fieldless enum Version: declaration order
+#[verifier::external_body]
+pub fn vf_version_ge(a: Version, b: Version) -> (r: bool)
+    ensures r == (ver_num(a) >= ver_num(b))
+{ unimplemented!() }
+
 pub assume_specification<T> [<[T]>::reverse] (s: &mut [T])
     ensures final(s)@ == old(s)@.reverse();
 
